@@ -267,7 +267,7 @@ def r1_dual_walk(rule, root=None):
         else:
             rule.bad("dc_edge|coverage", "dc_edge's recursive calls are %s; it must visit t = 0 and t = 1 with the four sub-cells that touch the shared edge" % sorted(es), A.where(fn))
     # winding and per-leaf edge table in the leaf branch
-    t = A.unparse(fn["body"]).replace(" ", "")
+    t = A.ftxt(fn["body"])
     need = [
         ("each cell's own copy of the shared edge", "letedges=[Edge::new((((t.index()*4)+3)asu8)),Edge::new((((t.index()*4)+2)asu8)),Edge::new((((t.index()*4)+0)asu8)),Edge::new((((t.index()*4)+1)asu8))];"),
         ("winding follows the sign at the start of the edge", "letwinding=ifstarting_sign{3}else{1};"),
